@@ -53,11 +53,26 @@ def shard(sh: Shard, seed, wseed, cases):
                     if f["kind"] == "blackout":
                         state["hit"] += 1
                         return []
+                    if f["kind"] == "dup-req-burst" and state["attempt"] == 1:
+                        state["hit"] += 1
+                        return [0.001, 0.0015]
+                    if f["kind"] == "dup-req" and state["attempt"] in f["attempts"]:
+                        # the request reaches the spa twice: two complete reply chains arrive back to back
+                        state["hit"] += 1
+                        return [0.001, 0.001 + f.get("gap", 0.0005)]
                 elif v == "STATV":
                     _, idx, nxt = seg_info(rec["data"])
                     ok = state["attempt"] in f.get("attempts", [])
                     if f["kind"] == "blackout":
                         return []
+                    if f["kind"] == "dup-req-burst" and state["attempt"] == 1:
+                        # both reply chains are held back by the network and released as one burst
+                        # (the simulator paces its sends; a real spa or a recovering link does not)
+                        if "burst_at" not in state:
+                            state["burst_at"] = rec["t"] + f["hold"]
+                            state["n"] = 0
+                        state["n"] += 1
+                        return [max(0.0005, state["burst_at"] + state["n"] * 0.0004 - rec["t"])]
                     if f["kind"] == "drop-seg" and ok and idx == f["idx"]:
                         state["hit"] += 1
                         return []
@@ -153,6 +168,10 @@ def gen(tier, seed):
             for kind in ("drop-seg", "dup-seg") + (("swap",) if i < n - 1 else ()):
                 cases.append({"start": st, "length": L, "fault": {"kind": kind, "idx": i, "attempts": [1]}})
         cases.append({"start": st, "length": L, "fault": {"kind": "drop-req", "attempts": [1, 2]}})
+        if nseg(L) * 2 * 0.05 + 0.3 < 3.6:
+            cases.append({"start": st, "length": L, "fault": {"kind": "dup-req-burst", "hold": nseg(L) * 2 * 0.05 + 0.3}, "follow": (st, L)})
+        for gap in (0.0, 0.0005, 0.03, 0.4):
+            cases.append({"start": st, "length": L, "fault": {"kind": "dup-req", "attempts": [1], "gap": gap}, "follow": (st, L)})
         cases.append({"start": st, "length": L, "fault": {"kind": "drop-last", "attempts": [1, 2]}})
         cases.append({"start": st, "length": L, "fault": {"kind": "blackout"}, "follow": (st, L)})
         # every attempt loses a segment (its tail / one in the middle): the transfer fails after
@@ -177,5 +196,5 @@ def add(run, tier, seed):
     run.need(run.counters.get("threaded_success", 0) > 60 and run.counters.get("threaded_failure", 0) > 2, "threaded structure: too few successful/failed transfers")
     run.need(run.counters.get("threaded_follow_up_transfers", 0) >= 6, "threaded structure: no fault-free transfer right after a failed one")
     fk = run.sets.get("threaded_fault_kinds", set())
-    for k in ("none", "drop-seg", "dup-seg", "swap", "drop-req", "drop-last", "blackout", "random"):
+    for k in ("none", "drop-seg", "dup-seg", "swap", "drop-req", "dup-req", "dup-req-burst", "drop-last", "blackout", "random"):
         run.need(k in fk, f"threaded structure: fault kind {k} never exercised")
